@@ -291,6 +291,7 @@ func cloneBody(b []model.Stmt) ([]model.Stmt, error) {
 
 func runC04(tier string) int {
 	r := harness.NewRun("C04", "exploration", tier, budget(tier, 50*time.Second, 12*time.Minute))
+	r.HangLimit = 90 * time.Second // one case is one small program: a compilation that takes this long hangs
 	plans, swN := enginePlans(tier)
 	ext := map[string]bool{"EXT": true}
 	forEachEngineProgram(r, plans, swN, func(w int, p engineProgram) {
